@@ -93,6 +93,11 @@ Proof.
     symmetry. apply last_byte_app_nonempty. discriminate.
 Qed.
 
+Lemma state_step_any pats lastb w : w <> [] -> state_of w (snd (flush_step pats lastb w)).
+Proof.
+  intro Hne. right. split; [exact Hne|]. unfold flush_step. cbn [snd]. destruct w; [congruence | reflexivity].
+Qed.
+
 (* the flag of write w after the writes ws1 *)
 Lemma flush_run_nth pats lastb ws1 w ws2 :
   nth_error (flush_run pats lastb (ws1 ++ w :: ws2)) (length ws1) =
@@ -193,4 +198,67 @@ Proof.
   intros Hf meth r rs1 d rs2 Hc Hd. unfold handler_flushes. rewrite Hc, Hf.
   rewrite map_app, nth_error_app2 by (rewrite map_length; lia).
   rewrite map_length, Nat.sub_diag. destruct d; [congruence | reflexivity].
+Qed.
+
+(* ------------------------------------------------------------------ after arbitrary earlier writes *)
+(* The automaton forgets everything but the last byte: after ANY earlier writes ws0 (empty ones
+   included, e.g. the empty value of a header field), once at least one non-empty write has
+   followed, flushing is again exactly "a pattern ends inside this write". *)
+Lemma state_after_any pats lastb x ws1 :
+  x <> [] -> Forall (fun y => y <> []) ws1 ->
+  state_of (concat (x :: ws1)) (fold_left (fun l y => snd (flush_step pats l y)) (x :: ws1) lastb).
+Proof.
+  intros Hx Hne. cbn [fold_left concat].
+  apply (state_after pats x (snd (flush_step pats lastb x)) ws1); [|exact Hne].
+  exact (state_step_any pats lastb x Hx).
+Qed.
+
+Theorem flush_iff_boundary_after :
+  flush_straddle_check = true -> flush_contains_check = true ->
+  forall pats ws0 x ws1 w ws2,
+    Forall (fun p => fst p <> 0) pats -> x <> [] -> Forall (fun y => y <> []) ws1 ->
+    (nth_error (flush_flags pats (ws0 ++ (x :: ws1) ++ w :: ws2)) (length ws0 + length (x :: ws1)) = Some true <->
+     occurs_ending_in pats (concat (x :: ws1)) w).
+Proof.
+  intros Hs Hc pats ws0 x ws1 w ws2 Hnz Hx Hne. unfold flush_flags.
+  pose proof (flush_run_nth pats 0 (ws0 ++ x :: ws1) w ws2) as Hn.
+  rewrite app_length, fold_left_app, <- app_assoc in Hn.
+  pose proof (state_after_any pats (fold_left (fun l y => snd (flush_step pats l y)) ws0 0) x ws1 Hx Hne) as Hst.
+  pose proof (flush_step_iff Hs Hc pats _ _ w Hst Hnz) as Hiff.
+  split.
+  - intro H. pose proof (eq_trans (eq_sym Hn) H) as E. inversion E as [E']. apply Hiff. exact E'.
+  - intro H. apply Hiff in H. exact (eq_trans Hn (f_equal Some H)).
+Qed.
+
+(* An event stream body written by (modelled) Response.Write without chunked coding: the
+   writes are the head followed by one write per non-empty read of the body.  Every event
+   completed by a read is flushed at that read's write. *)
+Theorem sse_body_event_delivered :
+  flush_straddle_check = true -> flush_contains_check = true ->
+  forall pats, In (10, 10) pats -> In (13, 13) pats -> In (13, 10) pats -> Forall (fun p => fst p <> 0) pats ->
+  forall head rs1 d rs2 t a c,
+    In t event_terminators -> Forall (fun y => y <> []) rs1 ->
+    concat rs1 ++ d = a ++ t ++ c -> (length c < length d)%nat ->
+    nth_error (flush_flags pats ((head ++ [crlf]) ++ rs1 ++ d :: rs2)) (length (head ++ [crlf]) + length rs1) = Some true.
+Proof.
+  intros Hs Hc pats H1 H2 H3 Hnz head rs1 d rs2 t a c Ht Hne Heq Hlen.
+  assert (E : (head ++ [crlf]) ++ rs1 ++ d :: rs2 = head ++ (crlf :: rs1) ++ d :: rs2)
+    by (rewrite <- !app_assoc; reflexivity).
+  assert (E2 : (length (head ++ [crlf]) + length rs1 = length head + length (crlf :: rs1))%nat)
+    by (rewrite app_length; cbn [length]; rewrite <- Nat.add_assoc; reflexivity).
+  rewrite E, E2.
+  apply (flush_iff_boundary_after Hs Hc pats head crlf rs1 d rs2 Hnz ltac:(discriminate) Hne).
+  assert (Hq : concat (crlf :: rs1) ++ d = crlf ++ (concat rs1 ++ d))
+    by (cbn [concat]; rewrite <- app_assoc; reflexivity).
+  simpl in Ht. destruct Ht as [<- | [<- | [<- | []]]].
+  - exists (10, 10), (crlf ++ a), c. split; [exact H1|]. split; [|exact Hlen].
+    transitivity (crlf ++ (concat rs1 ++ d)); [exact Hq|].
+    transitivity (crlf ++ (a ++ [10; 10] ++ c)); [exact (f_equal (app crlf) Heq) | apply app_assoc].
+  - exists (13, 13), (crlf ++ a), c. split; [exact H2|]. split; [|exact Hlen].
+    transitivity (crlf ++ (concat rs1 ++ d)); [exact Hq|].
+    transitivity (crlf ++ (a ++ [13; 13] ++ c)); [exact (f_equal (app crlf) Heq) | apply app_assoc].
+  - exists (13, 10), (crlf ++ a ++ [13; 10]), c. split; [exact H3|]. split; [|exact Hlen].
+    transitivity (crlf ++ (concat rs1 ++ d)); [exact Hq|].
+    transitivity (crlf ++ (a ++ [13; 10; 13; 10] ++ c)); [exact (f_equal (app crlf) Heq)|].
+    change [13; 10; 13; 10] with ([13; 10] ++ [13; 10]). rewrite <- !app_assoc. reflexivity.
 Qed.
